@@ -127,7 +127,7 @@ fn gen_tokens(rng: &mut Rng, cfg: &GenCfg, plain: &mut Vec<u8>, feats: &mut Vec<
     toks
 }
 
-fn write_tokens(w: &mut BitWriter, toks: &[Tok], ll: &[u8], lc: &[u32], dl: &[u8], dc: &[u32]) {
+pub fn write_tokens(w: &mut BitWriter, toks: &[Tok], ll: &[u8], lc: &[u32], dl: &[u8], dc: &[u32]) {
     for t in toks {
         match *t {
             Tok::Lit(b) => w.put_code(lc[b as usize], ll[b as usize] as u32),
